@@ -201,6 +201,13 @@ Proof.
   - destruct (step s (num, v)); reflexivity.
 Qed.
 
+Lemma parse_value_len rec d num r :
+  parse_value rec d num 2 r = match ref_len r with Some (p, r') => Some (WLen p, r') | None => None end.
+Proof. reflexivity. Qed.
+Lemma parse_value_varint rec d num r :
+  parse_value rec d num 0 r = match ref_varint r with Some (v, r') => Some (WVarint v, r') | None => None end.
+Proof. reflexivity. Qed.
+
 Lemma scan_ref : forall n f g s b,
   wf_bytes b -> (length b <= n)%nat -> (n < f)%nat -> (n < g)%nat ->
   scan f s b = top_result s (parse_fields g ref_group_limit b).
@@ -226,14 +233,14 @@ Proof.
       destruct (want_bytes num) eqn:EB; cbn [negb andb orb].
       * (* expected wire type: bytes *)
         destruct (N.eqb_spec typ 2) as [->|N2]; cbn [negb].
-        -- cbn [N.eqb]. rewrite (consume_bytes_ref b1 W1).
-           unfold parse_value at 1. cbn [N.eqb].
+        -- change (2 =? 4) with false. cbv iota. rewrite (consume_bytes_ref b1 W1).
+           rewrite parse_value_len in *.
            destruct (ref_len b1) as [[p b2]|] eqn:EL; [|reflexivity].
            rewrite top_result_cons.
-           unfold step. cbn [fst snd wire_type]. rewrite EP. unfold expected_wire_type. rewrite EB. cbn [N.eqb].
+           unfold step. cbn [fst snd wire_type]. rewrite EP. unfold expected_wire_type. rewrite EB.
+           change (2 =? 2) with true. cbv iota.
            destruct (on_bytes s num p) as [s'|]; [|reflexivity].
-           destruct (Hrest (WLen p) b2) as [W2 L2].
-           { unfold parse_value. cbn [N.eqb]. rewrite EL. reflexivity. }
+           destruct (Hrest (WLen p) b2 eq_refl) as [W2 L2].
            apply IH; try assumption; lia.
         -- (* wrong wire type: rejected at once; the reference rejects too *)
            destruct (N.eqb_spec typ 4) as [->|N4]; [reflexivity|].
@@ -243,13 +250,13 @@ Proof.
            destruct (N.eqb_spec typ 2); [contradiction|reflexivity].
       * (* expected wire type: varint *)
         destruct (N.eqb_spec typ 0) as [->|N0]; cbn [negb].
-        -- cbn [N.eqb]. rewrite (consume_varint_ref b1 W1).
-           unfold parse_value at 1. cbn [N.eqb].
+        -- change (0 =? 4) with false. cbv iota. rewrite (consume_varint_ref b1 W1).
+           rewrite parse_value_varint in *.
            destruct (ref_varint b1) as [[v b2]|] eqn:EL; [|reflexivity].
            rewrite top_result_cons.
-           unfold step. cbn [fst snd wire_type]. rewrite EP. unfold expected_wire_type. rewrite EB. cbn [N.eqb].
-           destruct (Hrest (WVarint v) b2) as [W2 L2].
-           { unfold parse_value. cbn [N.eqb]. rewrite EL. reflexivity. }
+           unfold step. cbn [fst snd wire_type]. rewrite EP. unfold expected_wire_type. rewrite EB.
+           change (0 =? 0) with true. cbv iota.
+           destruct (Hrest (WVarint v) b2 eq_refl) as [W2 L2].
            apply IH; try assumption; lia.
         -- destruct (N.eqb_spec typ 4) as [->|N4]; [reflexivity|].
            destruct (parse_value (parse_fields g) ref_group_limit num typ b1) as [[v b2]|] eqn:EV; [|reflexivity].
@@ -265,3 +272,353 @@ Proof.
       destruct (Hrest v b2 eq_refl) as [W2 L2].
       apply IH; try assumption; lia.
 Qed.
+
+(* ---------- 5. the fold over parsed fields = the declarative reading (last value wins, envelope rules) ---------- *)
+
+Lemma go_int32_ref v : go_int32 v = ref_int32 v.
+Proof.
+  unfold go_int32, ref_int32. cbv zeta.
+  destruct (N.ltb_spec (v mod 4294967296) 2147483648); lia.
+Qed.
+
+Lemma go_int64_ref v : go_int64 v = ref_int64 v.
+Proof.
+  unfold go_int64, ref_int64. cbv zeta.
+  destruct (N.ltb_spec (v mod 18446744073709551616) 9223372036854775808); lia.
+Qed.
+
+Lemma last_cons {A} (l : list A) : forall x d, last (x :: l) d = last l x.
+Proof.
+  induction l as [|y l IH]; intros x d; [reflexivity|].
+  change (last (x :: y :: l) d) with (last (y :: l) d). rewrite (IH y d), (IH y x). reflexivity.
+Qed.
+
+Lemma last_app {A} (a b : list A) : forall d, last (a ++ b) d = last b (last a d).
+Proof.
+  induction a as [|x a IH]; intro d; [reflexivity|].
+  rewrite <- app_comm_cons, !last_cons. apply IH.
+Qed.
+
+Lemma last_map {A B} (f : A -> B) (l : list A) : forall d, last (map f l) (f d) = f (last l d).
+Proof.
+  induction l as [|x l IH]; intro d; [reflexivity|].
+  cbn [map]. rewrite !last_cons. apply IH.
+Qed.
+
+Lemma len_values_cons k x r : len_values k (x :: r) = len_values k [x] ++ len_values k r.
+Proof. unfold len_values. cbn [flat_map]. rewrite app_nil_r. reflexivity. Qed.
+
+Lemma varint_values_cons k x r : varint_values k (x :: r) = varint_values k [x] ++ varint_values k r.
+Proof. unfold varint_values. cbn [flat_map]. rewrite app_nil_r. reflexivity. Qed.
+
+Lemma principal_cases n : is_principal_field n = true ->
+  n = 6 \/ n = 7 \/ n = 8 \/ n = 9 \/ n = 10 \/ n = 11 \/ n = 12.
+Proof. unfold is_principal_field. intro H. lia. Qed.
+
+Lemma not_principal n : is_principal_field n = false ->
+  n <> 6 /\ n <> 7 /\ n <> 8 /\ n <> 9 /\ n <> 10 /\ n <> 11 /\ n <> 12.
+Proof. unfold is_principal_field. intro H. lia. Qed.
+
+Ltac neq_false :=
+  repeat match goal with
+  | H : ?n <> ?k |- context [?n =? ?k] => rewrite (proj2 (N.eqb_neq n k) H)
+  end.
+
+(* generic "last value wins" lemmas for one projection of the loop state *)
+Lemma interp_proj_len (pi : st -> bytes) (k : N) :
+  (forall s x s1, step s x = Some s1 -> pi s1 = last (len_values k [x]) (pi s)) ->
+  forall fs s s', interp s fs = Some s' -> pi s' = last (len_values k fs) (pi s).
+Proof.
+  intros Hstep. induction fs as [|x r IH]; intros s s' H; cbn [interp] in H.
+  - inversion H; subst. reflexivity.
+  - destruct (step s x) as [s1|] eqn:ES; [|discriminate].
+    rewrite len_values_cons, last_app, <- (Hstep _ _ _ ES). apply IH. exact H.
+Qed.
+
+Lemma interp_proj_varint (pi : st -> Z) (conv : N -> Z) (k : N) :
+  (forall s x s1, step s x = Some s1 -> pi s1 = last (map conv (varint_values k [x])) (pi s)) ->
+  forall fs s s', interp s fs = Some s' -> pi s' = last (map conv (varint_values k fs)) (pi s).
+Proof.
+  intros Hstep. induction fs as [|x r IH]; intros s s' H; cbn [interp] in H.
+  - inversion H; subst. reflexivity.
+  - destruct (step s x) as [s1|] eqn:ES; [|discriminate].
+    rewrite varint_values_cons, map_app, last_app, <- (Hstep _ _ _ ES). apply IH. exact H.
+Qed.
+
+(* case analysis of one loop step: field number 6..12 concretely, or outside *)
+Ltac step_cases s x s1 H :=
+  destruct x as [n v]; unfold step in H; cbn [fst snd] in H;
+  destruct (is_principal_field n) eqn:EP;
+  [ destruct (principal_cases n EP) as [->|[->|[->|[->|[->|[->| ->]]]]]];
+    destruct v; cbn in H; try discriminate H
+  | pose proof (not_principal n EP) as (N6 & N7 & N8 & N9 & N10 & N11 & N12) ].
+
+Lemma step_endpoint s x s1 : step s x = Some s1 -> s_endpoint s1 = last (len_values 7 [x]) (s_endpoint s).
+Proof.
+  intro H. step_cases s x s1 H.
+  all: try (inversion H; subst; reflexivity).
+  all: try (destruct (s_have s); [discriminate H|]; destruct (bad_envelope_size b) eqn:EB; unfold bad_envelope_size in EB; rewrite EB in H; [discriminate H|]; inversion H; subst; reflexivity).
+  inversion H; subst. unfold len_values. cbn [flat_map fst snd app]. destruct v; neq_false; reflexivity.
+Qed.
+
+Ltac solve_step_proj H s :=
+  [> try (inversion H; subst; reflexivity) .. ];
+  [> try (destruct (s_have s); [discriminate H|];
+          match type of H with context [N.of_nat (length ?b) =? 0] =>
+            destruct ((N.of_nat (length b) =? 0) || (max_envelope_bytes <? N.of_nat (length b))) end;
+          [discriminate H|]; inversion H; subst; reflexivity) .. ].
+
+Lemma step_org s x s1 : step s x = Some s1 -> s_org s1 = last (len_values 8 [x]) (s_org s).
+Proof.
+  intro H. step_cases s x s1 H. all: solve_step_proj H s.
+  inversion H; subst. unfold len_values. cbn [flat_map fst snd app]. destruct v; neq_false; reflexivity.
+Qed.
+
+Lemma step_nonce s x s1 : step s x = Some s1 -> s_nonce s1 = last (len_values 9 [x]) (s_nonce s).
+Proof.
+  intro H. step_cases s x s1 H. all: solve_step_proj H s.
+  inversion H; subst. unfold len_values. cbn [flat_map fst snd app]. destruct v; neq_false; reflexivity.
+Qed.
+
+Lemma step_envelope s x s1 : step s x = Some s1 -> s_envelope s1 = last (len_values 12 [x]) (s_envelope s).
+Proof.
+  intro H. step_cases s x s1 H. all: solve_step_proj H s.
+  inversion H; subst. unfold len_values. cbn [flat_map fst snd app]. destruct v; neq_false; reflexivity.
+Qed.
+
+Lemma step_protocol s x s1 : step s x = Some s1 ->
+  s_protocol s1 = last (map go_int32 (varint_values 6 [x])) (s_protocol s).
+Proof.
+  intro H. step_cases s x s1 H. all: solve_step_proj H s.
+  inversion H; subst. unfold varint_values. cbn [flat_map fst snd app]. destruct v; neq_false; reflexivity.
+Qed.
+
+Lemma step_spv s x s1 : step s x = Some s1 ->
+  s_spv s1 = last (map go_int32 (varint_values 10 [x])) (s_spv s).
+Proof.
+  intro H. step_cases s x s1 H. all: solve_step_proj H s.
+  inversion H; subst. unfold varint_values. cbn [flat_map fst snd app]. destruct v; neq_false; reflexivity.
+Qed.
+
+Lemma step_rev s x s1 : step s x = Some s1 ->
+  s_rev s1 = last (map go_int64 (varint_values 11 [x])) (s_rev s).
+Proof.
+  intro H. step_cases s x s1 H. all: solve_step_proj H s.
+  inversion H; subst. unfold varint_values. cbn [flat_map fst snd app]. destruct v; neq_false; reflexivity.
+Qed.
+
+(* errors and flags *)
+Definition env_of (x : wfield) : option bytes :=
+  match snd x with WLen p => if fst x =? 12 then Some p else None | _ => None end.
+
+Lemma len_values_12_single x : len_values 12 [x] = match env_of x with Some p => [p] | None => [] end.
+Proof.
+  unfold len_values, env_of. cbn [flat_map]. rewrite app_nil_r.
+  destruct (snd x); try reflexivity. destruct (fst x =? 12); reflexivity.
+Qed.
+
+Lemma step_spec s x :
+  match step s x with
+  | None => wrong_type x = true \/
+            exists p, env_of x = Some p /\ (s_have s = true \/ bad_envelope_size p = true)
+  | Some s1 =>
+    wrong_type x = false /\ s_found s1 = s_found s || is_principal_field (fst x) /\
+    match env_of x with
+    | Some p => s_have s = false /\ bad_envelope_size p = false /\ s_have s1 = true
+    | None => s_have s1 = s_have s
+    end
+  end.
+Proof.
+  destruct x as [n v]. unfold step, wrong_type, env_of, bad_envelope_size. cbn [fst snd].
+  destruct (is_principal_field n) eqn:EP.
+  - destruct (principal_cases n EP) as [->|[->|[->|[->|[->|[->| ->]]]]]]; destruct v; cbn;
+      try (left; reflexivity); try (repeat split; rewrite ?orb_true_r; reflexivity).
+    (* field 12, length-delimited *)
+    destruct (s_have s) eqn:EH.
+    { right. exists b. split; [reflexivity|]. left. reflexivity. }
+    destruct ((N.of_nat (length b) =? 0) || (max_envelope_bytes <? N.of_nat (length b))) eqn:EB.
+    { right. exists b. split; [reflexivity|]. right. exact EB. }
+    cbn. repeat split. rewrite orb_true_r. reflexivity.
+  - pose proof (not_principal n EP) as (N6 & N7 & N8 & N9 & N10 & N11 & N12).
+    cbn [andb]. split; [reflexivity|]. split; [rewrite orb_false_r; reflexivity|].
+    destruct v; neq_false; reflexivity.
+Qed.
+
+Definition errb (have : bool) (fs : list wfield) : bool :=
+  existsb wrong_type fs || existsb bad_envelope_size (len_values 12 fs)
+  || Nat.leb (if have then 1 else 2) (length (len_values 12 fs)).
+
+Lemma interp_spec : forall fs s,
+  match interp s fs with
+  | None => errb (s_have s) fs = true
+  | Some s' =>
+    errb (s_have s) fs = false /\
+    s_have s' = s_have s || Nat.leb 1 (length (len_values 12 fs)) /\
+    s_found s' = s_found s || has_principal_field fs
+  end.
+Proof.
+  induction fs as [|x r IH]; intro s.
+  - cbn [interp]. unfold errb. cbn. destruct (s_have s); cbn; rewrite ?orb_false_r; auto.
+  - cbn [interp]. pose proof (step_spec s x) as HS.
+    unfold errb in *. rewrite len_values_cons, len_values_12_single, existsb_app, app_length.
+    unfold has_principal_field in *. cbn [existsb].
+    destruct (step s x) as [s1|].
+    + destruct HS as (HW & HF & HE). specialize (IH s1). rewrite HW. cbn [orb].
+      destruct (interp s1 r) as [s'|].
+      * destruct IH as (IE & IHv & IFo).
+        apply orb_false_iff in IE. destruct IE as [IE IL]. apply orb_false_iff in IE. destruct IE as [IW IB].
+        rewrite IW, IB, IHv, IFo, HF. cbn [orb].
+        destruct (env_of x) as [p|].
+        -- destruct HE as (H0 & HB & H1). cbn [existsb length Nat.add].
+           rewrite H0, HB, H1 in *. cbn [orb].
+           destruct (length (len_values 12 r)); [|discriminate IL].
+           cbn. rewrite orb_assoc. auto.
+        -- rewrite HE in *. cbn [existsb orb length Nat.add app]. rewrite IL.
+           rewrite orb_assoc. auto.
+      * destruct (env_of x) as [p|].
+        -- destruct HE as (H0 & HB & H1). cbn [existsb length Nat.add].
+           rewrite H0, HB, H1 in *. cbn [orb].
+           destruct (existsb wrong_type r); [reflexivity|].
+           destruct (existsb bad_envelope_size (len_values 12 r)); [reflexivity|].
+           cbn [orb] in *. destruct (length (len_values 12 r)); [discriminate IH|reflexivity].
+        -- rewrite HE in *. cbn [existsb orb length Nat.add app]. exact IH.
+    + destruct HS as [HW|(p & HP & [HH|HB])].
+      * rewrite HW. reflexivity.
+      * rewrite HP, HH. cbn [length Nat.add Nat.leb]. rewrite !orb_true_r. reflexivity.
+      * rewrite HP. cbn [existsb]. rewrite HB. cbn [orb]. rewrite orb_true_r. reflexivity.
+Qed.
+
+Lemma envelope_is_principal fs : len_values 12 fs <> [] -> has_principal_field fs = true.
+Proof.
+  unfold has_principal_field. induction fs as [|x r IH]; intro H; [contradiction|].
+  rewrite len_values_cons, len_values_12_single in H. cbn [existsb].
+  unfold env_of in H. destruct x as [n v]. cbn [fst snd] in *.
+  destruct v; try (rewrite IH by exact H; apply orb_true_r).
+  destruct (N.eqb_spec n 12) as [->|_]; [reflexivity|].
+  rewrite IH by exact H. apply orb_true_r.
+Qed.
+
+Lemma finish_interp_ref fs :
+  match interp st0 fs with None => RErr | Some s => finish s end = ref_read fs.
+Proof.
+  pose proof (interp_spec fs st0) as HS. unfold errb in HS. cbn [s_have s_found st0 orb] in HS.
+  unfold ref_read.
+  destruct (interp st0 fs) as [s|] eqn:EI.
+  - destruct HS as (HE & HH & HF).
+    apply orb_false_iff in HE. destruct HE as [HE HL]. apply orb_false_iff in HE. destruct HE as [HW HB].
+    rewrite HW.
+    pose proof (interp_proj_len s_endpoint 7 step_endpoint fs st0 s EI) as P7.
+    pose proof (interp_proj_len s_org 8 step_org fs st0 s EI) as P8.
+    pose proof (interp_proj_len s_nonce 9 step_nonce fs st0 s EI) as P9.
+    pose proof (interp_proj_len s_envelope 12 step_envelope fs st0 s EI) as P12.
+    pose proof (interp_proj_varint s_protocol go_int32 6 step_protocol fs st0 s EI) as P6.
+    pose proof (interp_proj_varint s_spv go_int32 10 step_spv fs st0 s EI) as P10.
+    pose proof (interp_proj_varint s_rev go_int64 11 step_rev fs st0 s EI) as P11.
+    cbn [st0 s_endpoint s_org s_nonce s_envelope s_protocol s_spv s_rev] in *.
+    change 0%Z with (go_int32 0) in P6, P10.
+    change 0%Z with (go_int64 0) in P11.
+    rewrite last_map in P6, P10, P11.
+    rewrite go_int32_ref in P6, P10. rewrite go_int64_ref in P11.
+    unfold finish. rewrite HF, HH, P6, P7, P8, P9, P10, P11, P12.
+    fold (last_len 7 fs) (last_len 8 fs) (last_len 9 fs) (last_varint 6 fs) (last_varint 10 fs) (last_varint 11 fs).
+    destruct (len_values 12 fs) as [|e [|e2 l]] eqn:EE.
+    + cbn [length Nat.leb last]. destruct (has_principal_field fs); reflexivity.
+    + cbn [existsb orb] in HB. rewrite orb_false_r in HB. rewrite HB.
+      rewrite (envelope_is_principal fs) by (rewrite EE; discriminate).
+      cbn [negb length Nat.leb last]. reflexivity.
+    + cbn [length Nat.leb] in HL. discriminate HL.
+  - destruct (existsb wrong_type fs); [reflexivity|]. cbn [orb] in HS.
+    destruct (len_values 12 fs) as [|e [|e2 l]]; cbn [existsb length Nat.leb orb] in HS.
+    + discriminate HS.
+    + rewrite !orb_false_r in HS. rewrite HS. reflexivity.
+    + reflexivity.
+Qed.
+
+(* ---------- 6. the theorems ---------- *)
+
+Lemma extract_fuel_ref f u : wf_bytes u -> (length u < f)%nat ->
+  extract_fuel f u = ref_extract u.
+Proof.
+  intros W Hf. unfold extract_fuel, ref_extract, ref_message.
+  rewrite (scan_ref (length u) f (S (length u)) st0 u W) by lia.
+  destruct (parse_fields (S (length u)) ref_group_limit u) as [[[fs [e|]] r]|]; cbn [top_result]; try reflexivity.
+  apply finish_interp_ref.
+Qed.
+
+Theorem C41_agree_proof : forall u, wf_bytes u -> extract u = ref_extract u.
+Proof. intros u W. apply extract_fuel_ref; [exact W | lia]. Qed.
+
+Theorem C41_fuel_proof : forall u f, wf_bytes u -> (length u < f)%nat -> extract_fuel f u = extract u.
+Proof.
+  intros u f W Hf. rewrite (C41_agree_proof u W). apply extract_fuel_ref; assumption.
+Qed.
+
+Lemma ref_extract_reject_iff u : ref_extract u = RErr <-> must_reject u = true.
+Proof.
+  unfold must_reject, malformed, has_wrong_type, second_envelope, some_bad_envelope_size,
+    envelope_without_nonce, envelopes, fields_of, ref_extract.
+  destruct (ref_message ref_group_limit u) as [fs|]; [|split; reflexivity].
+  cbn [orb]. unfold ref_read.
+  destruct (existsb wrong_type fs); [split; reflexivity|]. cbn [orb].
+  destruct (len_values 12 fs) as [|e [|e2 l]]; cbn [length Nat.leb Nat.eqb existsb negb andb orb].
+  - destruct (has_principal_field fs); split; discriminate.
+  - rewrite orb_false_r. destruct (bad_envelope_size e); [split; reflexivity|]. cbn [orb].
+    destruct (Nat.eqb (length (last_len 9 fs)) 16); cbn [negb]; split; try reflexivity; discriminate.
+  - split; reflexivity.
+Qed.
+
+Theorem C41_reject_iff_proof : forall u, wf_bytes u -> (extract u = RErr <-> must_reject u = true).
+Proof. intros u W. rewrite (C41_agree_proof u W). apply ref_extract_reject_iff. Qed.
+
+Lemma ref_extract_never_downgrades u : has_field_6_12 u = true -> ref_extract u <> ROk None.
+Proof.
+  unfold has_field_6_12, fields_of, ref_extract.
+  destruct (ref_message ref_group_limit u) as [fs|]; [|discriminate].
+  intro HP. unfold ref_read. destruct (existsb wrong_type fs); [discriminate|].
+  destruct (len_values 12 fs) as [|e [|e2 l]].
+  - rewrite HP. discriminate.
+  - destruct (bad_envelope_size e); [discriminate|].
+    destruct (Nat.eqb (length (last_len 9 fs)) 16); discriminate.
+  - discriminate.
+Qed.
+
+Theorem C41_never_downgrades_proof : forall u, wf_bytes u -> has_field_6_12 u = true -> extract u <> ROk None.
+Proof. intros u W. rewrite (C41_agree_proof u W). apply ref_extract_never_downgrades. Qed.
+
+(* the nonce array is only bound together with an envelope: without one it stays zero whatever field 9 holds *)
+Theorem C41_nonce_only_with_envelope_proof : forall u p, wf_bytes u ->
+  extract u = ROk (Some p) -> p_envelope p = [] -> p_nonce p = zeros16.
+Proof.
+  intros u p W. rewrite (C41_agree_proof u W). unfold ref_extract.
+  destruct (ref_message ref_group_limit u) as [fs|]; [|discriminate].
+  unfold ref_read. destruct (existsb wrong_type fs); [discriminate|].
+  destruct (len_values 12 fs) as [|e [|e2 l]]; try discriminate.
+  - destruct (has_principal_field fs); [|discriminate]. intro H; inversion H; subst. reflexivity.
+  - destruct (bad_envelope_size e) eqn:EB; [discriminate|].
+    destruct (Nat.eqb (length (last_len 9 fs)) 16); [|discriminate].
+    intro H; inversion H; subst. cbn [p_envelope]. intro E; subst e.
+    unfold bad_envelope_size in EB. cbn in EB. discriminate EB.
+Qed.
+
+(* ---------- non-vacuity: concrete proposals ---------- *)
+
+(* 30 02 | 4a 10 <16 bytes> | 62 03 "a.b" : protocol 2, nonce, envelope *)
+Definition ex_full : bytes :=
+  [48; 2; 74; 16; 1;2;3;4;5;6;7;8;9;10;11;12;13;14;15;16; 98; 3; 97; 46; 98].
+Example ex_full_ok :
+  wf_bytes ex_full /\ has_field_6_12 ex_full = true /\ must_reject ex_full = false /\
+  extract ex_full = ROk (Some (mkP 2 [] [] [1;2;3;4;5;6;7;8;9;10;11;12;13;14;15;16] 0 0 [97; 46; 98])).
+Proof.
+  split; [|vm_compute; repeat split; reflexivity].
+  unfold wf_bytes, ex_full. repeat constructor.
+Qed.
+(* the same with a second envelope, with a varint-typed envelope, and truncated by one byte *)
+Example ex_rejected :
+  must_reject (ex_full ++ [98; 1; 99]) = true /\ extract (ex_full ++ [98; 1; 99]) = RErr /\
+  must_reject (ex_full ++ [96; 1]) = true /\ extract (ex_full ++ [96; 1]) = RErr /\
+  must_reject (removelast ex_full) = true /\ extract (removelast ex_full) = RErr /\
+  must_reject [48; 2; 98; 1; 99] = true /\ extract [48; 2; 98; 1; 99] = RErr.
+Proof. vm_compute. repeat split; reflexivity. Qed.
+(* a v1 proposal (only field 5 and 13 in the unknown region) has no principal *)
+Example ex_v1 : has_field_6_12 [40; 1; 106; 0] = false /\ extract [40; 1; 106; 0] = ROk None.
+Proof. vm_compute. split; reflexivity. Qed.
